@@ -105,3 +105,44 @@ def _mk_keygroup(nz):
 
 for _z in (0, 1, 2, 4):
     _mk_keygroup(_z)
+
+
+# ================================================================================================== C20: SlicingGeneral (per-zone arrays of a keygroup)
+# SlicingGeneral._realize evaluates its four bound expressions on the parse context and hands the VALUES on unchanged - zero included
+# (a keygroup with no active zone slices its per-zone arrays to [0:0]) - to construct's Slicing; _decode / _encode go through it.
+_UC = "smpl_extract.util.constructs:"
+_EXPR = lambda: ("obj", "BoundExpression", {"id": "int"})
+
+
+@contract("construct:evaluate#value-of", abstract=True, assumed=True, note="construct.evaluate(expr, context): the expression's value on this context - ANY integer, 0 included")
+def _ev_val(c):
+    c.param("expr", ("obj", "BoundExpression", {"id": "int"}))
+    c.param("context", ("drop",))
+    c.returns("int")
+    c.ensures("result == uf_int('value_of_expression', expr.id)")
+    c.modifies()
+
+
+@contract("construct:Slicing#new", abstract=True, note="construct.Slicing(subcon, count, start, stop, step, empty): keeps its arguments")
+def _slicing_new(c):
+    c.param("subcon", ("drop",))
+    c.param("count", "int")
+    c.param("start", "int")
+    c.param("stop", "int")
+    c.param("step", "int")
+    c.param("empty", ("drop",))
+    c.returns(("obj", "construct.Slicing", {"count": "int", "start": "int", "stop": "int", "step": "int"}))
+    c.ensures("result.count == count and result.start == start and result.stop == stop and result.step == step")
+    c.modifies()
+
+
+@contract(_UC + "SlicingGeneral._realize", props=["C20"])
+def _sg_realize(c):
+    c.self_obj(("self", _UC + "SlicingGeneral", {"subcon": ("drop",), "count": _EXPR(), "start": _EXPR(), "stop": _EXPR(), "step": _EXPR(), "pattern": ("drop",)}))
+    c.param("context", ("drop",))
+    c.abstract_calls = {"evaluate": "construct:evaluate#value-of", "Slicing": "construct:Slicing#new"}
+    c.define("val", ["e"], "uf_int('value_of_expression', e.id)")
+    c.ensures("result[0].count == val(self.count) and result[0].start == val(self.start) and result[0].stop == val(self.stop) and result[0].step == val(self.step)",
+              "the-slicing-gets-the-evaluated-bounds-as-they-are-zero-included")
+    c.ensures("result[1] == val(self.start) and result[2] == val(self.stop) and result[3] == val(self.step)", "and-so-does-the-caller")
+    c.modifies()
